@@ -193,12 +193,13 @@ Inductive case :=
   (* the same input judged without the clauses a KNOWN finding breaks (unused since fb9758c) *)
 | CaseRelax (rx : N) (c : case)
   (* a case together with octets of the packets themselves: [pkt] = the first (at most 12) octets of
-     the query packet on a datagram / stream listener ([] elsewhere) — the translated
+     the query packet on a datagram / stream listener ([] elsewhere), [plen] = its length (0
+     elsewhere; the model parses [pkt] padded to that length) — the translated
      wire.ParseHeader must produce the header the case carries, and fewer than 12 octets must be met
      with silence; [tail] = the octets of the reply's OPT when it is the reply's last record ([]
      otherwise) — they must be the wire form of the abstract OPT (WireOpt.enc_opt), and on the byte
      path exactly what the translated internal/wire builders produce (WireOpt.wire_opt_octets) *)
-| CaseBytes (pkt tail : list N) (c : case).
+| CaseBytes (pkt : list N) (plen : N) (tail : list N) (c : case).
 
 (* the model's two length computations agree with the library's on the observed reply, and the
    lengths the records carry agree with the name table *)
@@ -265,10 +266,10 @@ Fixpoint check_case (x : case) : bool :=
       omsg_eqb (option_map (transport_write tr) (edns_serve_c nt tr c q strict dn)) obs
       && lens_ok nt obs oulen oclen && omsg_wf nt dn
   | CaseRelax _ y => check_case y
-  | CaseBytes pkt tail y =>
+  | CaseBytes pkt plen tail y =>
       match pkt with
       | [] => check_case y && tail_ok tail y && wire_octets_ok tail y
-      | _ => match parse_pkt pkt with
+      | _ => match parse_pkt (pkt ++ repeat 0 (N.to_nat plen - length pkt)) with
              | None => is_none (case_obs y)
              | Some h => match case_hdr y with Some h' => theader_eqb h h' | None => false end
                          && check_case y && tail_ok tail y && wire_octets_ok tail y
@@ -283,11 +284,9 @@ Fixpoint spec_top (rx : N) (x : case) : bool :=
   | CaseMsg tr c _ q _ _ obs rlen _ _ => spec_msg rx tr c q obs rlen
   | CaseChain tr c _ q _ _ _ obs rlen _ _ => negb (length (m_q q) =? 1)%nat || spec_msg rx tr c q obs rlen
   | CaseRelax _ _ => true
-    (* fewer than 12 octets: no header to answer to — the statement is silent, so is the server *)
-  | CaseBytes pkt _ y => match pkt, parse_pkt pkt with
-                         | _ :: _, None => is_none (case_obs y)
-                         | _, _ => spec_top rx y
-                         end
+    (* fewer than 12 octets: no header to answer to — the statement is silent, so is the server
+       (judged on the packet's length alone: the oracle does not go through the translated parser) *)
+  | CaseBytes _ plen _ y => if (0 <? plen) && (plen <? 12) then is_none (case_obs y) else spec_top rx y
   end.
 
 Definition spec_case (x : case) : bool :=
